@@ -522,7 +522,7 @@ def _worker(args):
 
 
 QUICK = dict(trials=6400, nchunks=32, threads=[2, 3, 4, 4, 6, 8], maxops=7, timeout=240, delays=True, lin=True)
-THOROUGH = dict(trials=200000, nchunks=128, threads=[2, 3, 4, 5, 6, 7, 8], maxops=8, timeout=600, delays=True, lin=True)
+THOROUGH = dict(trials=60000, nchunks=128, threads=[2, 3, 4, 5, 6, 7, 8], maxops=8, timeout=600, delays=True, lin=True)
 
 
 def run(prop, tier, seed, config='tsan'):
@@ -542,7 +542,7 @@ def run(prop, tier, seed, config='tsan'):
     # pair stress: very many tiny two-thread trials (1-3 operations each plus the shared-object scenarios), so that
     # narrow windows between two specific operations are hit by timing jitter; TSan + conservation only
     pcfg = dict(cfg, threads=[2, 2, 3], tiny=True, lin=False, delays=True)
-    npair = cfg['trials'] * (4 if tier == 'quick' else 6)
+    npair = cfg['trials'] * 4
     tasks += [(exe, metapath, seed + 1000003, 1000 + c, npair // cfg['nchunks'], pcfg) for c in range(cfg['nchunks'])]
     tot = dict(trials=0, ops=0, races={}, threads_hist={}, lin=dict(checked=0, ok=0, budget=0, nodes=0), calls=0, accepted=0, reports=0, concurrent_pairs=0)
     inter = set()
